@@ -762,6 +762,9 @@ func (view *View) Limit(ctx context.Context, scope *ReferenceScope, clause parse
 		percentage := number.(*value.Float).Raw()
 		value.Discard(number)
 
+		if math.IsNaN(percentage) {
+			return NewInvalidLimitPercentageError(clause)
+		}
 		if 100 < percentage {
 			limit = view.RecordLen() + view.offset
 		} else if percentage < 0 {
